@@ -19,6 +19,6 @@ cd /tmp/eval-sim
 if ! CARGO_NET_OFFLINE=true cargo build --release --offline >build.log 2>&1; then echo "BUILD FAILED"; grep -E "^error" -A8 build.log | head -30; git -C /tmp/eval-repo checkout -- .; exit 2; fi
 for id in "$@"; do
   out=$(VERIF_DIR=/tmp/seeded-eval ./target/release/sim check "$id" --tier quick 2>&1); rc=$?
-  echo "[$id] rc=$rc"; echo "$out" | grep -E "scenario=|^VIOLATION|KNOWN|HARNESS|HANG|^runs=" | cut -c1-300
+  echo "[$id] rc=$rc"; echo "$out" | grep -a -E "scenario=|^VIOLATION|KNOWN|HARNESS|HANG|^runs=" | cut -c1-300
 done
 git -C /tmp/eval-repo checkout -- .
